@@ -328,6 +328,7 @@ bool ManifestParser::ParseEdge(string* err) {
 
   Edge* edge = state_->AddEdge(rule);
   edge->env_ = env;
+  edge->has_own_env_ = (env != env_);
 
   string pool_name = edge->GetBinding("pool");
   if (!pool_name.empty()) {
